@@ -132,6 +132,9 @@ func c13Run(c *core.Ctx, keyName, method string, kind int) {
 	}
 	k.format = []saml.NameIDFormat{"", saml.EmailAddressNameIDFormat, saml.PersistentNameIDFormat, saml.UnspecifiedNameIDFormat}[c.Rng.Intn(4)]
 	cfg, _ := c12SP(k)
+	// what the IdP says it wants does not change what a SP configured to sign has to do
+	want := []*bool{nil, nil, boolPtr(true), boolPtr(false)}[c.Rng.Intn(4)]
+	cfg.IDPMetadata.IDPSSODescriptors[0].WantAuthnRequestsSigned = want
 	if c13LiveSP == nil { // one SP object per process, given the configuration of each case in turn (keys, method, metadata)
 		c13LiveSP = &saml.ServiceProvider{}
 	}
@@ -146,7 +149,7 @@ func c13Run(c *core.Ctx, keyName, method string, kind int) {
 	}
 	sp.IDPMetadata.IDPSSODescriptors[0].ArtifactResolutionServices = []saml.Endpoint{{Binding: saml.SOAPBinding, Location: so.IDPArt}}
 	kinds := []string{"authn-redirect", "authn-post", "logoutreq-redirect", "logoutreq-post", "logoutresp-redirect", "logoutresp-post", "artifact-resolve", "middleware-start-flow"}
-	desc := fmt.Sprintf("key=%s method=%s kind=%s relay=%q endpoint=%q entityID=%q authnCtx=%v forceAuthn=%v format=%q", keyName, shortAlg(method), kinds[kind], truncate(relay, 50), ep, k.entityID, c13Ctx(k.authnCtx), k.forceAuthn != nil, k.format)
+	desc := fmt.Sprintf("key=%s method=%s kind=%s relay=%q endpoint=%q entityID=%q authnCtx=%v forceAuthn=%v format=%q idpWantsSigned=%s", keyName, shortAlg(method), kinds[kind], truncate(relay, 50), ep, k.entityID, c13Ctx(k.authnCtx), k.forceAuthn != nil, k.format, map[bool]string{true: "unset", false: fmt.Sprint(want != nil && *want)}[want == nil])
 	c.Journal("C13 " + desc)
 	matching := (methodIsRSA(method) && kp.IsRSA() || strings.Contains(method, "#ecdsa-") && !kp.IsRSA())
 	known := false
